@@ -16,7 +16,7 @@ from vmon.util import derive_rng, shash
 
 LEVEL = "exploration"
 MANIFEST = {
-    "text": "For seeded random programs every value on the path to the result is used as a cut point with each of three cut kinds (persist, to_delayed/from_delayed with meta and divisions, legacy round trip); the remaining operations are re-applied to the re-imported collection on the real code and the final result, declared schema and divisions are compared with the uncut program. The graph of the re-imported plan is audited (key aliasing of FromGraph) and the node kind at the cut is recorded (frame, series, index, scalar, unknown divisions, partition-filtered).",
+    "text": "For seeded random programs every value on the path to the result is used as a cut point with each of three cut kinds (persist, to_delayed/from_delayed with meta and divisions, legacy round trip); the remaining operations are re-applied to the re-imported collection on the real code and the final result, declared schema and divisions are compared with the uncut program. The graph of the re-imported plan is audited (key aliasing of FromGraph) and the node kind at the cut is recorded (frame, series, index, scalar, unknown divisions, partition-filtered). 60 chain cases cut directly on partition selections, head / tail / loc, sorted set_index and from_map sources.",
     "note": "The uncut optimized program is the oracle. from_delayed receives the cut collection's own meta and divisions, so equal divisions are required; sampled programs.",
     "technique": "runtime monitoring: differential execution cut vs uncut at every intermediate value, with M-graph on the re-imported plan",
     "design_ref": "DESIGN.md section 4, C17",
